@@ -62,13 +62,18 @@ Audios == AudioOfN(8) \cup AudioOfN(13)
 ProgFiles == {<<v>> : v \in Videos} \cup (IF WithAudio THEN {<<v, a>> : v \in Videos, a \in Audios} ELSE {})
 SegDurs(v) == {10, 15, 20, 30, 45, Total(v.durs), Total(v.durs) + 10}
 \* fragmented input: the samples of one track split into fragments (composition) and truns per fragment
-FragInputs == {[tr |-> v, frags |-> fc, twotruns |-> tt] : v \in {x \in Videos : x.spc = <<Len(x.durs)>>}, fc \in {c \in Comp(4) \cup Comp(6) \cup Comp(5) : TRUE}, tt \in BOOLEAN}
+\* indep: NON-sync samples that are nevertheless marked sample_depends_on = 2 (open-GOP I pictures, flags 0x02010000):
+\* independent, but not a place where a segment may start (8.8.3.1: sample_is_non_sync_sample decides)
+IndepOpts(v) == LET ns == (1 .. Len(v.durs)) \ v.sync IN {{}, ns, {s \in ns : s % 2 = 0}}
+FragInputs == UNION {{[tr |-> v, frags |-> fc, twotruns |-> tt, indep |-> ip] : fc \in {c \in Comp(4) \cup Comp(6) \cup Comp(5) : SumF(c, 1, Len(c)) = Len(v.durs)},
+                                                                                tt \in BOOLEAN, ip \in IndepOpts(v)} :
+                     v \in {x \in Videos : x.spc = <<Len(x.durs)>>}}
 
 VARIABLES inp, d, phase
 vars == <<inp, d, phase>>
 Init == /\ phase = "chosen"
         /\ IF Mode = "prog" THEN inp \in ProgFiles /\ d \in SegDurs(inp[1])
-           ELSE /\ inp \in {f \in FragInputs : SumF(f.frags, 1, Len(f.frags)) = Len(f.tr.durs)}
+           ELSE /\ inp \in FragInputs
                 /\ d \in {10, 20, 25, 40, 1000}
 Run == phase = "chosen" /\ phase' = "done" /\ UNCHANGED <<inp, d>>
 Next == Run
@@ -94,5 +99,6 @@ Export == (DoExport /\ phase = "done") =>
                         defined |-> \A i \in 1 .. Len(inp) : DefinedFor(inp[i]),
                         intervals |-> [i \in 1 .. Len(inp) |-> IF DefinedFor(inp[i]) THEN Intervals(inp[i], inp[1], Starts, 1, 1) ELSE <<>>]]
                   ELSE [mode |-> "frag", track |-> TrackJ(inp.tr), frags |-> inp.frags, twotruns |-> inp.twotruns, d |-> d,
+                        indep |-> [s \in 1 .. Len(inp.tr.durs) |-> s \in inp.indep],
                         newsegs |-> Reseg(inp.tr, 1, 1, d, <<>>)]))
 =============================================================================
